@@ -47,6 +47,8 @@ var (
 
 const freshFile = 3
 
+var appCollations int
+
 var mangled = map[string]bool{"CREATE": true, "TABLE": true, "INDEX": true, "PRIMARY": true, "KEY": true, "COLLATE": true, "WITHOUT": true, "ROWID": true,
 	"ON": true, "UNIQUE": true, "DEFAULT": true, "REFERENCES": true, "DELETE": true, "CASCADE": true, "WHERE": true, "DESC": true, "ASC": true, "SELECT": true,
 	"FROM": true, "NOT": true, "NULL": true, "CHECK": true, "AND": true, "OR": true, "CONSTRAINT": true, "IS": true}
@@ -167,7 +169,7 @@ type spec struct {
 	Case    []bool // letter case pattern of the keywords in the fresh file's DDL and in parse-fresh statements
 }
 
-var kinds = []string{"parse-fresh", "select-probed", "select", "select-wr", "indexed", "indexed-nocase", "indexed-eq", "indexed-wr", "pk", "rowid", "columns", "low-scan", "parse", "compare", "driver", "driver-early-close", "driver-connect", "open-close", "schema", "def", "def", "low-missing", "low-missing"}
+var kinds = []string{"parse-fresh", "select-probed", "select", "select-wr", "indexed", "indexed-nocase", "indexed-eq", "indexed-wr", "pk", "rowid", "columns", "low-scan", "parse", "compare", "driver", "driver-early-close", "driver-connect", "open-close", "schema", "def", "def", "low-missing", "low-missing", "appc", "appc"}
 
 var statements = []string{
 	"CREATE TABLE t (a INTEGER PRIMARY KEY, b, c TEXT COLLATE NOCASE)",
@@ -370,6 +372,17 @@ func runOp(h *handles, o opSpec, yield bool, pattern []bool) string {
 		if err != nil {
 			return fail(err)
 		}
+	case "appc":
+		// the fresh file's table whose column names a collation of the
+		// application's own: its columns and rows (no key is compared)
+		d, err := h.high(freshFile)
+		if err != nil {
+			return fail(err)
+		}
+		cols, err := d.Columns("appc")
+		fmt.Fprint(&b, cols, err, ";")
+		err = d.Select("appc", func(row sqlittle.Row) { fmt.Fprint(&b, []interface{}(row), ";") }, "a", "b")
+		fmt.Fprint(&b, err)
 	case "def":
 		// the parsed definitions of tables and indexes, among them two the
 		// grammar does not take (an error path of its own)
@@ -522,7 +535,7 @@ func runOp(h *handles, o opSpec, yield bool, pattern []bool) string {
 // phase; its result alone is computed afterwards.
 func late(o opSpec) bool {
 	switch o.Kind {
-	case "parse-fresh":
+	case "parse-fresh", "appc":
 		return true
 	case "parse", "compare":
 		return false
@@ -541,6 +554,10 @@ func run(r *vt.Run, t vt.TB, s spec) {
 		}
 		init = append(init, oracle.Stmt{SQL: q})
 	}
+	// a table with a column under a collation the application defined itself
+	// (a new name in every plan: nothing in this process has met it before)
+	appCollations++
+	init = append(init, oracle.Stmt{SQL: fmt.Sprintf("CREATE TABLE appc (a TEXT COLLATE verifcoll%d, b)", appCollations%64)}, oracle.Stmt{SQL: "INSERT INTO appc VALUES ('x', 1), ('y', 2)"})
 	res, err := env.Create("c20f", fresh, 1024, 0, init)
 	sqdb.MustOK(r, t, "create fresh", res, err, len(init)+2)
 	env.O.Close("c20f")
